@@ -44,6 +44,42 @@ def tie(tier, seed, replay):
             shape = ";".join(s[0] for s in sc)
             hist[shape] = hist.get(shape, 0) + 1
             distinct.add((r["text"], json.dumps(sc, sort_keys=True, default=str)))
+    # the same histories through ascent_par! (pool of 3): every snapshot must equal the specification
+    from .. import dl
+    pjobs = []
+    for r in results:
+        c = r["case"]
+        scripts = []
+        for sc in c["scripts"]:
+            s2 = []
+            for st in sc:
+                s2.append(st)
+                if st[0] == "run":
+                    s2.append(("snap",))
+            scripts.append(s2)
+        pjobs.append(dict(id=c["id"] + "_par", text=dl.rust_program_text(c["prog"]), macro="ascent_par", rels=c["prog"]["rels"], scripts=scripts, threads=3))
+    pimpl = prog.build_and_run("c13p", pjobs, run_timeout=300) if pjobs else {}
+    npar = 0
+    for r in results:
+        c = r["case"]
+        if r["spec"] is None:
+            continue
+        for k, sc in enumerate(c["scripts"]):
+            iv = (pimpl.get(c["id"] + "_par") or [None] * len(c["scripts"]))[k]
+            cs = dict(program=r["text"], script=sc, macro="ascent_par", pool_threads=3)
+            if iv is None or "snaps" not in iv:
+                mism.append(dict(case=cs, impl=iv, model=None, spec=None, kind="impl_violates_spec", known=None,
+                                 what="parallel history did not complete (panic / timeout): %s" % json.dumps(iv)[:300]))
+                continue
+            npar += 1
+            for j, snap in enumerate(iv["snaps"]):
+                isnap = prog.canon_snap(snap)
+                sg = engine_tie.group_facts(r["spec"][k][j], c["prog"]["rels"])
+                bad = [name for name, _, _ in c["prog"]["rels"] if isnap[name][1] != sg[name][1]]
+                if bad:
+                    mism.append(dict(case=dict(cs, run=j), impl={bad[0]: isnap[bad[0]]}, model=None, spec={bad[0]: sg[bad[0]][1]}, kind="impl_violates_spec", known=None,
+                                     what="parallel history: relation %s after run #%d differs from the specification" % (bad[0], j + 1)))
+                    break
     sample = [dict(program=r["text"], script=r["case"]["scripts"][-1], impl=[{k: v[1][:5] for k, v in prog.canon_snap(s).items()} for s in r["impl"][-1]["snaps"]] if r["impl"] and "snaps" in r["impl"][-1] else r["impl"]) for r in results[:2]]
     return dict(evaluations=sum(len(r["case"]["scripts"]) for r in results), distinct_nontrivial=len(distinct),
                 rule="random programs (2/3 positive C01-style, 1/3 stratified with aggregates / negation) x histories run;run | run;push;run;push;run | run(empty);push;run;run with facts pushed into any relation incl. derived ones; every snapshot compared; non-trivial = history with at least two runs; distinct = distinct (program, history)",
@@ -51,4 +87,4 @@ def tie(tier, seed, replay):
                 mismatches=mism,
                 trusted_base=["FRONT hook + gen/dl.py plan translation; gen/prog.py generated crates", "Engine/Rerun.v models the program value between runs (stored indices kept, rows appended)"],
                 assumptions=["facts pushed between runs are appended to the public Vec fields, as a user would"],
-                extra=dict(cases_skipped_model_too_slow=nskipped))
+                extra=dict(cases_skipped_model_too_slow=nskipped, parallel_histories=npar))
